@@ -1007,7 +1007,7 @@ func (in *Instance) Serve(jar *Jar, browser, method, path string, form map[strin
 	}
 	r.RemoteAddr = "10.0.0.1:1234"
 	root := r
-	r = r.WithContext(context.WithValue(r.Context(), rootKey{}, root))
+	r = r.WithContext(context.WithValue(context.WithValue(r.Context(), rootKey{}, root), ctxClient, browser))
 	w := httptest.NewRecorder()
 	func() {
 		defer func() {
